@@ -1692,6 +1692,10 @@ pub struct ConnectionH2<Front: SocketHandler> {
     pub encoder: loona_hpack::Encoder<'static>,
     pub expect_read: Option<(H2StreamId, usize)>,
     pub expect_write: Option<H2StreamId>,
+    /// A control frame sits in the zero buffer but could not be scheduled
+    /// because a stream frame was only partially written (see
+    /// `expect_zero_write`); flushed as soon as that frame is complete.
+    pub deferred_zero_write: bool,
     pub last_stream_id: StreamId,
     pub local_settings: H2Settings,
     pub peer_settings: H2Settings,
@@ -1910,6 +1914,7 @@ impl<Front: SocketHandler> ConnectionH2<Front> {
             encoder: loona_hpack::Encoder::new(),
             expect_read,
             expect_write: None,
+            deferred_zero_write: false,
             last_stream_id: 0,
             local_settings,
             peer_settings: H2Settings::default(),
@@ -2790,6 +2795,10 @@ impl<Front: SocketHandler> ConnectionH2<Front> {
                 return MuxResult::Continue;
             }
             self.expect_write = None;
+            // The parked frame is now completely on the wire: a control frame
+            // that `expect_zero_write` deferred while it was half-sent can go
+            // out at this frame boundary.
+            let zero_deferred = std::mem::take(&mut self.deferred_zero_write);
             if (kawa.is_terminated() || kawa.is_error())
                 && kawa.is_completed()
                 && !Self::handle_1xx_reset(kawa, stream_state, &mut endpoint)
@@ -2829,6 +2838,15 @@ impl<Front: SocketHandler> ConnectionH2<Front> {
                         endpoint.end_stream(token, global_stream_id, context);
                     }
                 }
+            }
+            if zero_deferred {
+                if self.flush_zero_to_socket() {
+                    self.expect_write = Some(H2StreamId::Zero);
+                    self.ensure_tls_flushed();
+                    return MuxResult::Continue;
+                }
+                // the handler that queued the control frame paused reads until it was flushed
+                self.readiness.interest.insert(Ready::READABLE);
             }
         }
 
@@ -4696,7 +4714,7 @@ impl<Front: SocketHandler> ConnectionH2<Front> {
                 // Keep READABLE so in-flight request bodies can still be received
                 // during the drain window. Only remove READABLE in the final GOAWAY
                 // (via `goaway()`).
-                self.expect_write = Some(H2StreamId::Zero);
+                self.expect_zero_write();
                 self.readiness.arm_writable();
                 MuxResult::Continue
             }
@@ -4748,6 +4766,21 @@ impl<Front: SocketHandler> ConnectionH2<Front> {
         self.expect_write.is_some()
             || !self.zero.storage.is_empty()
             || self.socket.socket_wants_write()
+    }
+
+    /// Schedule the zero (control) buffer as the next thing to write — unless a
+    /// stream frame is only partially on the wire. HTTP/2 frames are atomic
+    /// (RFC 9113 §4.1): a SETTINGS ACK, PING response or GOAWAY written while
+    /// `expect_write` parks a half-sent DATA frame would land in the middle of
+    /// that frame's payload and desynchronise the whole connection. In that
+    /// case the parked stream write keeps priority and `write_streams` flushes
+    /// the zero buffer right after it has drained, at the frame boundary.
+    fn expect_zero_write(&mut self) {
+        if matches!(self.expect_write, Some(H2StreamId::Other { .. })) {
+            self.deferred_zero_write = true;
+        } else {
+            self.expect_write = Some(H2StreamId::Zero);
+        }
     }
 
     /// True when the reaper has queued control frames (`RST_STREAM`) into
@@ -5805,7 +5838,7 @@ impl<Front: SocketHandler> ConnectionH2<Front> {
 
         self.readiness.interest.insert(Ready::WRITABLE);
         self.readiness.interest.remove(Ready::READABLE);
-        self.expect_write = Some(H2StreamId::Zero);
+        self.expect_zero_write();
         self.readiness.signal_pending_write();
         MuxResult::Continue
     }
@@ -5862,7 +5895,7 @@ impl<Front: SocketHandler> ConnectionH2<Front> {
         };
         self.readiness.interest.insert(Ready::WRITABLE);
         self.readiness.interest.remove(Ready::READABLE);
-        self.expect_write = Some(H2StreamId::Zero);
+        self.expect_zero_write();
         self.readiness.signal_pending_write();
         MuxResult::Continue
     }
